@@ -20,7 +20,7 @@ RULE = (
     "raise; the same for categories registered at run time under the name of another quantity type. (d) generated sequences interleaving such rejected calls with valid operations on a pool: after every "
     "rejected call the full registry snapshot (all public getters + both conversion functions sampled), every pool "
     "object's snapshot, the soundness of the memoised verdicts/cached quantities and the results of a fixed battery of "
-    "valid operations are identical. Units used without a category before their default category is re-bound to another quantity type are rejected afterwards in the category-less forms too. Non-trivial = the two dimension vectors share a quantity type or a unit-symbol "
+    "valid operations are identical. Units used without a category before their default category is re-bound to another quantity type are rejected afterwards in the category-less forms too. The reciprocal or another power of an amount does not convert to a unit of the same quantity type (exponent-list form with opposite signs, (1/Scalar).GetValue(unit)); rejected sums of operands that belong to another database leave the current database current. Non-trivial = the two dimension vectors share a quantity type or a unit-symbol "
     "prefix (near miss); key = (route, dims a, dims b) resp. (route, unit, target)."
 )
 ASSUMPTIONS = [
@@ -207,6 +207,18 @@ class Sweep:
             for qt2 in others_qt[:2]:
                 must_raise_rec(ctx, "db.Convert(other quantity type, valid pair)", {"kind": "convert_wrong_type", "qt": qt, "qt2": qt2, "u": u, "v": w, "x": x, "c": c}, lambda: Convert(qt2, u, w, x), "Convert(%r,%r,%r,%r) after Convert(%r,...)" % (qt2, u, w, x, qt))
                 must_raise_rec(ctx, "db.Convert(other quantity type, valid pair, list)", {"kind": "convert_wrong_type", "qt": qt, "qt2": qt2, "u": u, "v": w, "x": x, "c": c}, lambda: Convert(qt2, u, w, [x, 1.0]), "Convert(%r,%r,%r,[...])" % (qt2, u, w))
+        # the reciprocal (or another power) of an amount is not an amount of the same dimension: 1/u does not convert to w,
+        # u2 does not convert to 1/w2, whatever unit w of the same quantity type is named
+        from barril.units import Scalar
+
+        for w in same[:1]:
+            rc = {"kind": "reciprocal", "qt": qt, "u": u, "v": w, "x": x, "c": c}
+            must_raise_rec(ctx, "db.Convert(exponent form, opposite signs)", rc, lambda: Convert(qt, [(u, -1)], [(w, 1)], x or 1.0), "Convert(%r,[(%r,-1)],[(%r,1)],%r)" % (qt, u, w, x))
+            must_raise_rec(ctx, "db.Convert(exponent form, squared to inverse squared)", rc, lambda: Convert(qt, [(u, 2)], [(w, -2)], x or 1.0), "Convert(%r,[(%r,2)],[(%r,-2)],%r)" % (qt, u, w, x))
+            if c is not None and x:
+                must_raise_rec(ctx, "(1/Scalar).GetValue(unit of the type)", rc, lambda: (1.0 / Scalar(x, u, c)).GetValue(w), "(1/Scalar(%r,%r)).GetValue(%r)" % (x, u, w))
+                must_raise_rec(ctx, "(1/Scalar).GetValue([(unit, 1)])", rc, lambda: (1.0 / Scalar(x, u, c)).GetValue([(w, 1)]), "(1/Scalar(%r,%r)).GetValue([(%r,1)])" % (x, u, w))
+                must_raise_rec(ctx, "(Scalar*Scalar).GetValue([(unit, -2)])", rc, lambda: (Scalar(x, u, c) * Scalar(x, u, c)).GetValue([(w, -2)]), "(Scalar(%r,%r)**2).GetValue([(%r,-2)])" % (x, u, w))
         for j, v in enumerate(targets):
             case = {"kind": "convert", "qt": qt, "u": u, "v": v, "x": x, "c": c}
             if "Unknown" in db.quantity_types:
@@ -454,7 +466,20 @@ def _fix(case):
 # (d) sequences: rejected calls interleaved with valid ones
 
 
-REJECTS = ["add", "sub", "lt", "convert", "getvalue", "copyunit", "array_getvalues", "construct", "obtain", "fraction_getvalue", "array_add", "changing_index"]
+REJECTS = ["add", "sub", "lt", "convert", "getvalue", "copyunit", "array_getvalues", "construct", "obtain", "fraction_getvalue", "array_add", "changing_index", "add_foreign", "sub_foreign_arrays"]
+_FOREIGN = {}
+
+
+def _foreign_operands():
+    """operands that belong to another database than the current one (created while a project database was current)"""
+    if not _FOREIGN:
+        from barril.units import Array, Scalar
+
+        sk = _FOREIGN["db"] = env.skewed_db()
+        with env.pushed(sk):
+            _FOREIGN["scalars"] = (Scalar(1.0, "m", "length"), Scalar(2.0, "s", "time"))
+            _FOREIGN["arrays"] = (Array([1.0, 2.0], "cm", "length"), Array([1.0, 2.0], "min", "time"))
+    return _FOREIGN
 PAIRS = [("m", "length", "s", "time"), ("m2", "area", "m", "length"), ("kg", "mass", "kgf", "force"), ("degC", "temperature", "Pa", "pressure"), ("m3", "volume", "m2", "area"), ("m/s", "velocity", "m/s2", "acceleration linear"), ("ft", "depth", "psi", "pressure"), ("Hz", "frequency", "s", "time")]
 VALID = ["convert", "add", "mul", "div", "obtain", "array", "lt", "copy", "validunits", "scalar_default"]
 
@@ -532,6 +557,8 @@ class Machine:
             "fraction_getvalue": lambda: FractionScalar(FractionValue(1.0, Fraction(1, 2)), u, c).GetValue(v),
             "array_add": lambda: Array([1.0, 2.0], u, c) + Array((1.0, 2.0), v, c2),
             "changing_index": lambda: FixedArray(2, [1.0, 2.0], u, c).ChangingIndex(0, (1.0, v)),
+            "add_foreign": lambda: _foreign_operands()["scalars"][0] + _foreign_operands()["scalars"][1],
+            "sub_foreign_arrays": lambda: _foreign_operands()["arrays"][0] - _foreign_operands()["arrays"][1],
         }
         case = dict(self.case, at=[kind, i])
         must_raise(ctx, "sequence:%s" % kind, case, fns[kind], "rejected call %s (%s/%s vs %s/%s)" % (kind, u, c, v, c2))
@@ -549,6 +576,10 @@ class Machine:
             self.reject(name, i)
             n_rej += 1
             ctx.ev(3)
+            from barril.units import UnitDatabase
+
+            if UnitDatabase.GetSingleton() is not db:
+                ctx.fail("current_database_changed_by_rejected_call:%s" % name, self.case, "after the rejected call %s another database is the current one" % name)
             for o, s in zip(self.pool, snaps):
                 if snapshot.value_object(o) != s:
                     ctx.fail("pool_object_changed_by_rejected_call:%s" % name, self.case, "pool object %r changed by the rejected call %s" % (o, name))
@@ -677,7 +708,7 @@ def replay(case, ctx):
             pr = Pairs(ctx, db)
             return core.replay_guarded(ctx, pr.check, _fix(case))
         sw = Sweep(ctx, db)
-        if case.get("kind") in ("convert", "convert_wrong_type"):
+        if case.get("kind") in ("convert", "convert_wrong_type", "reciprocal"):
             sw.convert_row(case["qt"], case["u"], [case["v"]] if case["kind"] == "convert" else [], case["x"], 1)
         elif case.get("kind") == "renamed":
             run_renamed_categories({"seed": 1, "tier": "quick"}, ctx)
